@@ -558,12 +558,12 @@ theorem new_failure_reported (m : MSt) (s : Step) (cs : List CheckOut) (f : FKey
 
 /-- **The scenario says so.**  A scenario whose run is ended by a failure group is closed as FAILURE, one ended by an
     error as ERROR, for every state and every list of steps Hypothesis runs. -/
-theorem scenario_closed_as_failed (m : MSt) (sc : Scenario) (hs : sc.setupFails = false) :
+theorem scenario_closed_as_failed (m : MSt) (sc : Scenario) (hs : sc.setupFails = false) (ht : sc.teardownFails = false) :
     (∀ fs, (runScenario m sc).2 = .failureGroup fs →
         (runScenario m sc).1.out = m.out ++ [.scenStarted m.nextId, .scenFinished m.nextId .failure]) ∧
     ((runScenario m sc).2 = .exception →
         (runScenario m sc).1.out = m.out ++ [.scenStarted m.nextId, .scenFinished m.nextId .error]) :=
-  SV.Proofs.SM.runScenario_closing_status m sc hs
+  SV.Proofs.SM.runScenario_closing_status m sc hs ht
 
 /-- **An intermittent internal error is reported (repaired Flaky arm).**  When a run ends Flaky although no check failed
     in the suite, the loop puts a `NonFatalError`, closes the suite as ERROR and stops. -/
